@@ -589,9 +589,9 @@ pub fn run_c12(ctx: &mut Ctx) {
         let step = if thorough || nreads <= 100 { 1 } else { (nreads / 100).max(1) };
         // transport errors come in two flavours: a kind the library never produces itself, and kind ConnectionAborted (ek=a),
         // which the library also uses for "the client aborted this request"
-        for i in (0..nreads).step_by(step) { for (tag, ek) in [("", ""), ("A", " ek=a")] { faults.push((format!("readerr{tag}@{i}"), format!("t.run B={b} mc={mc} in={} end=eof rd={} wr={wr} fl=- stop=none h={hs}{ek}", hexd(&wire), set_nth(&rd, i, "E")))); } }
+        for i in (0..nreads).step_by(step) { for (tag, ek) in [("", ""), ("A", " ek=a"), ("I", " ek=i")] { faults.push((format!("readerr{tag}@{i}"), format!("t.run B={b} mc={mc} in={} end=eof rd={} wr={wr} fl=- stop=none h={hs}{ek}", hexd(&wire), set_nth(&rd, i, "E")))); } }
         let step = if thorough || nwrites <= 150 { 1 } else { (nwrites / 150).max(1) };
-        for i in (0..nwrites).step_by(step) { for (tag, what, ek) in [("E", "E", ""), ("Z", "Z", ""), ("EA", "E", " ek=a")] { faults.push((format!("write{tag}@{i}"), format!("t.run B={b} mc={mc} in={} end=eof rd={rd} wr={} fl=- stop=none h={hs}{ek}", hexd(&wire), set_nth(&wr, i, what)))); } }
+        for i in (0..nwrites).step_by(step) { for (tag, what, ek) in [("E", "E", ""), ("Z", "Z", ""), ("EA", "E", " ek=a"), ("EI", "E", " ek=i")] { faults.push((format!("write{tag}@{i}"), format!("t.run B={b} mc={mc} in={} end=eof rd={rd} wr={} fl=- stop=none h={hs}{ek}", hexd(&wire), set_nth(&wr, i, what)))); } }
         // a failing poll_flush of the transport, at every flush-call index, with handlers that IGNORE the error and carry on (a failed
         // flush releases the output mutex, unlike a failed write: other writers, management replies and close() must still get through)
         { let nflush = trb.events.iter().filter(|e| e.starts_with("F:")).count();
